@@ -57,6 +57,74 @@ class Rec(types.SimpleNamespace):
     pass
 
 
+_dummy_classes = {}
+
+
+def cls_for(name):
+    from pathlib import Path
+    table = {'pathlib.Path': Path, 'str': str, 'int': int, 'float': float, 'bool': bool, 'list': list, 'dict': dict}
+    if name in table:
+        return table[name]
+    if ':' in name:
+        try:
+            return real_class(name)
+        except Exception:
+            pass
+    if name not in _dummy_classes:
+        _dummy_classes[name] = type('Cls_' + ''.join(ch if ch.isalnum() else '_' for ch in name), (), {})
+    return _dummy_classes[name]
+
+
+class Stub:
+    """Native stand-in for an abstract object: attributes from the value source, methods scripted."""
+
+    def __init__(self, iface, name, source, log, fields=None):
+        d = object.__getattribute__(self, '__dict__')
+        d['_iface'] = iface
+        d['_name'] = name
+        d['_source'] = source
+        d['_log'] = log
+        d['_counts'] = {}
+        for f, v in (fields or {}).items():
+            d[f] = v
+        for pn, p in iface.props.items():
+            if pn in d:
+                continue
+            if p.const is not None:
+                d[pn] = p.const
+            elif isinstance(p.kind, dsl.Abs):
+                sub = p.kind
+                d[pn] = Stub(sub.iface, sub.name or f'{name}.{pn}', source, log)
+            elif isinstance(p.kind, K.Kind):
+                d[pn] = source(f'{name}.{pn}', p.kind)
+
+    def __getattr__(self, attr):
+        d = object.__getattribute__(self, '__dict__')
+        iface = d['_iface']
+        if attr in iface.methods:
+            m = iface.methods[attr]
+
+            def call(*args, **kw):
+                if m.field is not None:
+                    return d[m.field]
+                if m.native is not None:
+                    return m.native(self, *args, **kw)
+                n = d['_counts'].get(attr, 0)
+                d['_counts'][attr] = n + 1
+                key = f'{d["_name"]}.{attr}' if m.pure else f'{d["_name"]}.{attr}#{n}'
+                ret = None
+                if isinstance(m.ret, K.Kind):
+                    ret = d['_source'](key, m.ret)
+                if m.event:
+                    d['_log'].append((attr, args, ret))
+                return ret
+            return call
+        raise AttributeError(attr)
+
+
+# (Stub is used by NativeInputs for dsl.Abs shapes)
+
+
 def from_decoded(kind, d, ctx):
     """Decoded model data (kinds.decode output) -> native python value of the real code's types."""
     if isinstance(kind, K.Opt):
@@ -64,6 +132,8 @@ def from_decoded(kind, d, ctx):
     n = kind.name
     if n in ('Int', 'Bool', 'Str'):
         return d
+    if n == 'Cls':
+        return cls_for(d)
     if n == 'Path':
         from pathlib import Path
         return Path(d)
@@ -218,6 +288,8 @@ class Gen:
             if hint == 'name':
                 return r.choice(NAMES)
             return r.choice(ALPHABET)
+        if n == 'Cls':
+            return cls_for(r.choice(['pathlib.Path', 'str', 'int', 'list', 'dict', 'other.X']))
         if n == 'Path':
             from pathlib import Path
             return Path('/' + r.choice(['d', 'data', 'x/y']))
@@ -287,6 +359,7 @@ class NativeInputs:
         self.c = contract
         self.source = source
         self.values = {}
+        self.log = []
 
     def build_all(self):
         for name, shape in self.c.inputs.items():
@@ -333,7 +406,10 @@ class NativeInputs:
             return self.values[sh.other]
         if isinstance(sh, tuple):
             return tuple(self.build(s, f'{path}[{i}]') for i, s in enumerate(sh))
-        if isinstance(sh, (dsl.Abs, dsl.Fn)):
+        if isinstance(sh, dsl.Abs):
+            fields = {f: self.build(fs, f'{path}.{f}') for f, fs in sh.fields.items()}
+            return Stub(sh.iface, sh.name or path, self.source, self.log, fields)
+        if isinstance(sh, dsl.Fn):
             return self.source(getattr(sh, 'name', None) or path, sh)
         if sh is None or isinstance(sh, (bool, int, str)):
             return sh
@@ -407,11 +483,11 @@ def call_by_name(fn, available):
     return fn(*[available[p] for p in params])
 
 
-def run_case(contract, values):
+def run_case(contract, values, log=None):
     """Run the real target on native inputs; returns dict(outcome, result, raised, clause results)."""
     cm = contract.module.py
     patches = Patches()
-    log = []
+    log = log if log is not None else []
     out = {'clauses': {}, 'requires_ok': True}
     try:
         for rq in list(contract.requires):
@@ -561,12 +637,13 @@ def search(contract, clause_names, seed, budget, per_case=None):
                 return v
             raise ValueError(f'search cannot generate {kind!r}')
         try:
-            vals = NativeInputs(contract, source).build_all()
+            ni = NativeInputs(contract, source)
+            vals = ni.build_all()
         except ValueError:
             return None, {'tried': 0, 'valid': 0, 'unsupported': True}
         tried += 1
         try:
-            out = run_case(contract, vals)
+            out = run_case(contract, vals, ni.log)
         except Exception as e:   # harness problem, not a verdict
             continue
         if not out.get('requires_ok'):
